@@ -229,7 +229,9 @@ def _case(draw):
     instances = []
     for t in seq:
         instances.append({'template': t, 'variant': draw(variant_choice), 'chain': draw(chain_choice),
-                          'shift': list(draw(shift))})
+                          'shift': list(draw(shift)),
+                          # input residue numbers as the mapping step stashes them (_old_resid = resid + shift); None = absent
+                          'old_resid_shift': draw(st.sampled_from([None, None, None, 0, 10, 10, 25]))})
     return {
         'templates': templates, 'variants': variants, 'instances': instances,
         'deduplicate': draw(st.sampled_from([True, True, False])),
@@ -357,6 +359,7 @@ def expand(case):
         inst['chain'] = None if cycle is None else [cycle[inst['atoms'][l]['res'] % len(cycle)] for l in range(n)]
         inst['xyz'] = [[(inst['pos'][l][ax] + spec['shift'][ax]) / 1000.0 for ax in range(3)] for l in range(n)]
         inst['index'] = idx
+        inst['old_resid_shift'] = spec.get('old_resid_shift')
         out.append(inst)
     return out
 
@@ -367,6 +370,8 @@ def node_attrs(inst, l):
     attrs = {k: atom[k] for k in ('atomname', 'resname', 'resid', 'atype', 'charge_group', 'charge', 'mass') if k in atom}
     if inst['atomid'] is not None:
         attrs['atomid'] = inst['atomid'][l]
+    if inst.get('old_resid_shift') is not None:
+        attrs['_old_resid'] = atom['resid'] + inst['old_resid_shift']
     return attrs
 
 
@@ -644,6 +649,11 @@ def produce(case, insts, mode):
         NameMolType(deduplicate=case['deduplicate'], molname=case['molname']).run_system(system)
         if mode == 'cli-order':
             SortMoleculeAtoms().run_system(system)
+        if mode == 'cli-resid-input':
+            # what bin/martinize2 does for "-resid input", after the molecule types were named
+            for mol in system.molecules:
+                old_resids = nx.get_node_attributes(mol, '_old_resid')
+                nx.set_node_attributes(mol, old_resids, 'resid')
         names = [mol.meta.get('moltype') for mol in system.molecules]
         opened = []
         topology_module = vermouth.gmx.topology
@@ -942,6 +952,20 @@ def _run_cli_order(case):
         raise Violation('sorted:' + viol.bucket, viol.message, viol.detail) from None
 
 
+def _run_cli_resid(case):
+    try:
+        out = _run(case, 'cli-resid-input')
+    except Violation as viol:
+        raise Violation('resid-input:' + viol.bucket, viol.message, viol.detail) from None
+    insts = expand(case)
+    shifts = {}
+    for inst in insts:
+        shifts.setdefault((inst['template'], inst['variant'], inst.get('variant_id')), set()).add(inst.get('old_resid_shift'))
+    differs = any(len(v - {None}) > 1 or (len(v) > 1 and None in v and (v - {None, 0})) for v in shifts.values())
+    return Outcome(list(out.classes) + (['same-topology-different-input-resids'] if differs else []),
+                   out.nontrivial and differs)
+
+
 # ---------------------------------------------------------------------------
 # known findings
 
@@ -985,6 +1009,8 @@ PARTS = [
          shrink_budget={'quick': 60, 'thorough': 400}),
     Part('include-once', _run_include, strategy=_strategy, examples={'quick': 320, 'thorough': 6400},
          floors={'include-checked': 0.3}, shrink_budget={'quick': 60, 'thorough': 400}),
+    Part('cli-resid-input', _run_cli_resid, strategy=_strategy, examples={'quick': 320, 'thorough': 6400},
+         floors={'same-topology-different-input-resids': 0.1}),
     Part('cli-order', _run_cli_order, strategy=_strategy, examples={'quick': 320, 'thorough': 6400},
          floors={'dedup': 0.1}, shrink_budget={'quick': 60, 'thorough': 400}),
 ]
